@@ -36,13 +36,18 @@ def glued_job(job, ctx):
     lang = langs.LANGS[langs.SUFFIX_LANG[suffix]]
     form = [f for f in lang["forms"] if f.kind == "line" and f.family != "md"][0]
     out = []
-    for variant in ("</block><block>", "</block> <block>", "<block name=\"z\"><block>"):
+    for variant in ("</block><block>", "</block> <block>", "<block name=\"z\"><block>", "UNI:<block \u043a\u043b\u044e\u0447>",
+                    "UNI:<block name=\u00e9t\u00e9 data-\u540d>"):
         for closed in (True, False):
             lines = list(lang["prologue"])
-            lines += ["%s <block name=\"a\">" % form.open, lang["code"][0], "%s %s" % (form.open, variant), lang["code"][-1]]
-            lines += ["%s </block>" % form.open]                      # closes the bare block (or `a` when the bare tag is lost)
-            if variant.startswith("<block name"):
-                lines += ["%s </block>" % form.open, "%s </block>" % form.open]     # z and a
+            if variant.startswith("UNI:"):
+                # a lone start tag whose attribute name / unquoted value is non-ASCII, closed or never closed
+                lines += ["%s %s" % (form.open, variant[4:]), lang["code"][0], "%s </block>" % form.open]
+            else:
+                lines += ["%s <block name=\"a\">" % form.open, lang["code"][0], "%s %s" % (form.open, variant), lang["code"][-1]]
+                lines += ["%s </block>" % form.open]                      # closes the bare block (or `a` when the bare tag is lost)
+                if variant.startswith("<block name"):
+                    lines += ["%s </block>" % form.open, "%s </block>" % form.open]     # z and a
             if not closed:
                 lines = lines[:-1]
             lines += list(lang["epilogue"])
